@@ -60,6 +60,8 @@ class PermutationLinearOperator(AbstractPermutationLinearOperator):
         - inv_perm: Optional tensor representing the inverse of perm, is computed
             via a O(n log(n)) sort if not given.
         - validate_args: Boolean
+        - dtype: the (nominal) floating dtype of the matrix the operator represents (it has no floating data of its
+            own); enclosing operators whose first argument is the permutation report this dtype.
     """
 
     def __init__(
@@ -67,6 +69,7 @@ class PermutationLinearOperator(AbstractPermutationLinearOperator):
         perm: Tensor,
         inv_perm: Optional[Tensor] = None,
         validate_args: bool = True,
+        dtype: torch.dtype = torch.float32,
     ):
         if not isinstance(perm, Tensor):
             raise ValueError("perm is not a Tensor.")
@@ -93,8 +96,10 @@ class PermutationLinearOperator(AbstractPermutationLinearOperator):
 
         self.perm = perm
         self.inv_perm = inv_perm
-        self._dtype = torch.float32
-        super().__init__(perm, inv_perm, validate_args=validate_args)
+        self._dtype = dtype
+        # dtype must reach LinearOperator.__init__: clone / detach / cpu / type / the representation tree rebuild the
+        # operator as self.__class__(*self._args, **self._kwargs)
+        super().__init__(perm, inv_perm, validate_args=validate_args, dtype=dtype)
 
     def _matmul(
         self: Float[LinearOperator, "*batch M N"],
@@ -133,18 +138,24 @@ class PermutationLinearOperator(AbstractPermutationLinearOperator):
         return torch.Size((*self.perm.shape, self.perm.shape[-1]))
 
     def _transpose_nonbatch(self: Float[LinearOperator, "*batch M N"]) -> Float[LinearOperator, "*batch N M"]:
-        return PermutationLinearOperator(perm=self.inv_perm, inv_perm=self.perm, validate_args=False)
+        return PermutationLinearOperator(perm=self.inv_perm, inv_perm=self.perm, validate_args=False, dtype=self._dtype)
 
     def to(self: Float[LinearOperator, "*batch M N"], *args, **kwargs) -> Float[LinearOperator, "*batch M N"]:
         # perm and inv_perm are index tensors: move them, never cast them (the base to() would cast them to the
         # floating dtype and the constructor would then fail to index with them)
         device, dtype = _to_helper(*args, **kwargs)
-        res = self.__class__(
-            self.perm.to(device=device), self.inv_perm.to(device=device), validate_args=self._kwargs["validate_args"]
+        return self.__class__(
+            self.perm.to(device=device),
+            self.inv_perm.to(device=device),
+            validate_args=self._kwargs["validate_args"],
+            dtype=self._dtype if dtype is None else dtype,
         )
-        if dtype is not None:
-            res._dtype = dtype
-        return res
+
+    def type(self: LinearOperator, dtype: torch.dtype) -> LinearOperator:
+        # the generic type() only casts floating tensors: the nominal dtype is a plain keyword argument
+        return self.__class__(
+            self.perm.clone(), self.inv_perm.clone(), validate_args=self._kwargs["validate_args"], dtype=dtype
+        )
 
     def to_sparse(self) -> Tensor:
         """Returns a sparse CSR tensor that represents the PermutationLinearOperator."""
@@ -169,14 +180,15 @@ class TransposePermutationLinearOperator(AbstractPermutationLinearOperator):
             the permutation matrix that the operator represents is then `n = m^2`.
     """
 
-    def __init__(self, m: int):
+    def __init__(self, m: int, dtype: torch.dtype = torch.float32):
         if m < 1:
             raise ValueError(f"m = {m} has to be a positive integer.")
-        super().__init__(m=m)
+        # dtype is a keyword argument of the base constructor so that every rebuild (clone, detach, to, representation
+        # tree) keeps it
+        super().__init__(m=m, dtype=dtype)
         self.n = m * m  # size of implicitly represented linear operator
         self.m = m  # (m, m) is size of the reshaped input which is transposed
-        # self._dtype = type(m)
-        self._dtype = torch.float32
+        self._dtype = dtype
 
     def _matmul(
         self: Float[LinearOperator, "*batch M N"],
@@ -196,8 +208,12 @@ class TransposePermutationLinearOperator(AbstractPermutationLinearOperator):
         return self._dtype
 
     def type(self: LinearOperator, dtype: torch.dtype) -> LinearOperator:
-        self._dtype = dtype
-        return self
+        # a new operator: the original keeps its dtype
+        return self.__class__(self.m, dtype=dtype)
+
+    def to(self: Float[LinearOperator, "*batch M N"], *args, **kwargs) -> Float[LinearOperator, "*batch M N"]:
+        device, dtype = _to_helper(*args, **kwargs)
+        return self.__class__(self.m, dtype=self._dtype if dtype is None else dtype)
 
     @property
     def device(self) -> Optional[torch.device]:
